@@ -357,7 +357,7 @@ def sp_astar_cut(interp, st, args, kwargs, node):
     if S contains the source s, v is reachable from s and v is not in S, then some edge (y, z) with y in S, z not in S lies on a
     shortest path from s to v: dist(s,z) = dist(s,y) + 1 and dist(s,z) + |z - e|_1 <= dist(s,v) + |v - e|_1 for every target e."""
     LEMMAS_USED.add("astar_cut: a shortest path from s to v leaves any set S (s in S, v not in S) through an edge (y,z) with dist(z)=dist(y)+1 and "
-                    "dist(z)+manhattan(z,e) <= dist(v)+manhattan(v,e) (textbook; validated concretely on small graphs, not machine-checked)")
+                    "dist(z)+manhattan(z,e) <= dist(v)+manhattan(v,e) (machine-checked in lemmas/AstarCut.lean; also validated concretely on small graphs)")
     m, s, e, S, v = args
     y0, y1, z0, z1 = [z3.Int(V.fresh_name(n)) for n in ("y0", "y1", "z0", "z1")]
     e0, e1 = _coord(e)
